@@ -46,4 +46,65 @@ theorem apply_noRef (t : Ty) (h : noRef t = true) : ∀ u, applyTargetAuth t u =
   | capAny => intro u; simp [applyTargetAuth]
   | range a _ => intro u; simp [applyTargetAuth]
 
+theorem unbox_someN (n : Nat) (v : DVal) : unbox (someN n v) = unbox v := by
+  induction n with
+  | zero => rfl
+  | succ k ih => simpa [someN, unbox] using ih
+
+theorem depth_someN_atom (n : Nat) (ty : Ty) (r : String) : (someN n (.atom ty r)).depth = n := by
+  induction n with
+  | zero => rfl
+  | succ k ih => simp [someN, DVal.depth, ih]
+
+theorem dynType_someN (n : Nat) (v : DVal) : dynType (someN n v) = optN n (dynType v) := by
+  induction n with
+  | zero => rfl
+  | succ k ih => simp [someN, dynType, optN, ih]
+
+theorem unwrap_optN (n : Nat) (u : Ty) (hu : ∀ x, u ≠ .opt x) : unwrapOptionalType (optN n u) = u := by
+  induction n with
+  | zero => cases u <;> first | rfl | exact absurd rfl (hu _)
+  | succ k ih => simpa [optN, unwrapOptionalType] using ih
+
+theorem optDepth_optN (n : Nat) (u : Ty) (hu : ∀ x, u ≠ .opt x) : optDepth (optN n u) = n := by
+  induction n with
+  | zero => cases u <;> first | rfl | exact absurd rfl (hu _)
+  | succ k ih => simp [optN, optDepth, ih]
+
+/-- `BoxOptional` on a non-nil value: as many layers are added as the target has more than the value -/
+theorem box_someN (ty : Ty) (r : String) (u : Ty) (hu : ∀ x, u ≠ .opt x) :
+    ∀ m k j, boxOptional (someN k (.atom ty r)) (someN j (.atom ty r)) (optN m u) = someN (k + (m - j)) (.atom ty r) := by
+  intro m
+  induction m with
+  | zero =>
+    intro k j
+    have : optN 0 u = u := rfl
+    rw [this]
+    cases u <;> first | exact absurd rfl (hu _) | (simp [boxOptional])
+  | succ m ih =>
+    intro k j
+    cases j with
+    | zero =>
+      have h := ih (k + 1) 0
+      simp only [someN, optN, boxOptional] at h ⊢
+      rw [h]
+      congr 1
+      omega
+    | succ j =>
+      have h := ih k j
+      simp only [someN, optN, boxOptional] at h ⊢
+      rw [h]
+      congr 1
+      omega
+
+theorem convert_someN_noRef (t : Ty) (n : Nat) (ty : Ty) (r : String) (hnr : noRef ty = true) :
+    convertForTarget t (someN n (.atom ty r)) = someN n (.atom ty r) := by
+  induction n with
+  | zero =>
+    simp only [someN, convertForTarget, strip_noRef ty hnr, apply_noRef ty hnr]
+    split
+    · rfl
+    · split <;> rfl
+  | succ k ih => simp [someN, convertForTarget, ih]
+
 end Verif.Proofs.Cast
